@@ -270,6 +270,67 @@ theorem mergeArrs_col (arrs : List Cols) (f : String) :
 example : getCol (mergeArrs [[("time", [1,2]), ("area", [5,6])], [("time", [3,4]), ("width", [7,8])]]) "time"
     = some [3,4] := by decide
 
+/-! ## 6b. chunks WITH sub-run annotations (superrun chunks), totality of `merge`
+
+Shape covered (`Chunk.annotated`, decidable): rows well-formed (`Chunk.wf`), `run_id = some rid`,
+`superrun = [(rid, start, stop)]` (the default entry), `subruns = some subs` with `subs` non-empty and
+tiled (`Tiled`: in list order `a.stop ≤ b.start`, distinct ids, non-empty spans) and
+`promisedContinuity = true` (for `rid` starting with "_": first sub-run starts at `start`, last one
+stops at `stop`; automatically true for other run ids).  NOT covered: chunks whose `superrun` has
+several entries (`run_id = None`, made by `concatenate(allow_superrun=True)` of different runs),
+`subruns = {}`, overlapping/unsorted spans, `promisedContinuity = false`. -/
+
+/-- an annotated (superrun) chunk used in the examples -/
+def exAnn : Chunk :=
+  ⟨"peaks", "peaks", some "_sr", 0, 20, [⟨1,4,0⟩, ⟨3,8,1⟩, ⟨10,12,2⟩],
+    some [⟨"a", 0, 9⟩, ⟨"b", 9, 20⟩], [⟨"_sr", 0, 20⟩], 2⟩
+
+/-- split (either mode) then concatenate restores an annotated chunk — rows, range, `subruns`
+and `superrun` included -/
+theorem concat_inverse_annotated (c : Chunk) (t : Int) (early : Bool) (c1 c2 : Chunk)
+    (ha : c.annotated = true) (h : c.split t early = .ok (c1, c2)) :
+    concatenate [c1, c2] false = .ok c :=
+  concat_inverse_ann ha h
+
+/-- the halves carry exactly the two sides of `_split_runs_in_chunk` and are well-formed -/
+theorem split_annotated_spec (c : Chunk) (t : Int) (early : Bool) (c1 c2 : Chunk)
+    (ha : c.annotated = true) (h : c.split t early = .ok (c1, c2)) :
+    ∃ subs t', c.subruns = some subs ∧ c.start ≤ t' ∧ t' ≤ c.stop ∧
+      c1.subruns = (splitRuns (some subs) t').1 ∧ c2.subruns = (splitRuns (some subs) t').2 ∧
+      c1.stop = t' ∧ c2.start = t' ∧ c1.rows ++ c2.rows = c.rows ∧ c1.wf = true ∧ c2.wf = true := by
+  obtain ⟨rid, subs, t', -, hsub, h1, h2, hc1, hc2, hcat, hw1, hw2⟩ := split_annotated ha h
+  exact ⟨subs, t', hsub, h1, h2, by rw [hc1], by rw [hc2], by rw [hc1], by rw [hc2], hcat, hw1, hw2⟩
+
+theorem split_total_annotated (c : Chunk) (t : Int) (ha : c.annotated = true)
+    (hno : ¬ ∃ r ∈ c.rows, r.straddles t) : ∃ c1 c2, c.split t false = .ok (c1, c2) :=
+  split_ann_total ha hno
+
+example : exAnn.annotated = true ∧ (¬ ∃ r ∈ exAnn.rows, r.straddles 9) ∧ exAnn.split 9 false = .ok
+    ({ exAnn with stop := 9, rows := [⟨1,4,0⟩, ⟨3,8,1⟩], subruns := some [⟨"a", 0, 9⟩], superrun := [⟨"_sr", 0, 9⟩] },
+     { exAnn with start := 9, rows := [⟨10,12,2⟩], subruns := some [⟨"b", 9, 20⟩], superrun := [⟨"_sr", 9, 20⟩] }) := by
+  decide +kernel
+
+/-- `Chunk.merge` is total on ≥ 1 well-formed chunks that agree on kind, run id, number of rows,
+range and run annotations; explicit side conditions on the annotations: the default super-run
+entry `[(run_id, start, stop)]` and no or tiled sub-runs -/
+theorem merge_total (c0 : Chunk) (rest : List Chunk) (dt rid : String)
+    (hwf : ∀ c ∈ c0 :: rest, c.wf = true)
+    (hagree : ∀ c ∈ rest, c.kind = c0.kind ∧ c.runId = c0.runId ∧ c.rows.length = c0.rows.length ∧
+      c.start = c0.start ∧ c.stop = c0.stop ∧ c.subruns = c0.subruns ∧ c.superrun = c0.superrun)
+    (hrid : c0.runId = some rid) (hsup : c0.superrun = [⟨rid, c0.start, c0.stop⟩])
+    (hsub : ∀ x, c0.subruns = some x → Tiled x) :
+    ∃ c, mergeChunks (c0 :: rest) dt = .ok c :=
+  merge_total' hwf hagree hrid hsup hsub
+
+example : (∀ c ∈ [exAnn, { exAnn with dataType := "peak_basics" }], c.wf = true) ∧
+    exAnn.runId = some "_sr" ∧ exAnn.superrun = [⟨"_sr", exAnn.start, exAnn.stop⟩] ∧
+    (∀ x, exAnn.subruns = some x → Tiled x) := by
+  refine ⟨by decide, rfl, rfl, ?_⟩
+  intro x hx
+  have : x = [⟨"a", 0, 9⟩, ⟨"b", 9, 20⟩] := by simpa [exAnn] using hx.symm
+  subst this
+  decide
+
 /-! ## 7. `diff`, `Rechunker.get_splits`, the rechunker -/
 
 /-- `strax.diff`: one entry per adjacent pair; entry `i` is the start of row `i+1` minus the
